@@ -142,14 +142,16 @@ func zzH03_maporder_stringDict() {
 	var last []string
 	which := zzChoice("which", 2)
 	ref, got := zzUnderAllOrders(func() string {
-		last = d.Keys()
 		if which == 1 {
 			return d.String()
 		}
+		last = d.Keys()
 		return strings.Join(last, ",")
 	})
 	zzAssert(got == ref, "C03.maporder.stringDict.same")
-	zzAssert(zzAnd(len(last) == n, zzIsSortedDistinct(last)), "C03.maporder.stringDict.sorted")
+	if which == 0 {
+		zzAssert(zzAnd(len(last) == n, zzIsSortedDistinct(last)), "C03.maporder.stringDict.sorted")
+	}
 	zzObserve("keys", ref)
 	zzReach("end")
 }
